@@ -448,6 +448,15 @@ pub enum TV {
     VecPlain(Vec<(i32, String, Option<i64>)>),
     HdrVec { n: i32, items: Vec<i32>, flag: bool },
     VecHdrVec(Vec<(i32, Vec<i32>, bool)>),
+    /// `swimos_model::Timestamp`, microseconds since the epoch (not negative).
+    Timestamp(u64),
+}
+
+pub fn timestamp_of(micros: u64) -> swimos_model::Timestamp {
+    use chrono::TimeZone;
+    let m = micros.min(4_000_000_000_000_000);
+    let dt = chrono::Utc.timestamp_opt((m / 1_000_000) as i64, ((m % 1_000_000) * 1000) as u32).single().expect("valid time");
+    swimos_model::Timestamp::from(dt)
 }
 
 fn eq_std<T: PartialEq>(a: &T, b: &T) -> bool {
@@ -482,6 +491,7 @@ impl TV {
             TV::I64(_) => "i64",
             TV::U32(_) => "u32",
             TV::U64(_) => "u64",
+            TV::Timestamp(_) => "timestamp",
             TV::F64(_) => "f64",
             TV::Bool(_) => "bool",
             TV::Str(_) => "string",
@@ -530,6 +540,7 @@ impl TV {
             TV::I64(n) => vis.visit(name, *n, eq_std),
             TV::U32(n) => vis.visit(name, *n, eq_std),
             TV::U64(n) => vis.visit(name, *n, eq_std),
+            TV::Timestamp(m) => vis.visit(name, timestamp_of(*m), eq_std),
             TV::F64(b) => vis.visit(name, f64::from_bits(*b), eq_f64),
             TV::Bool(p) => vis.visit(name, *p, eq_std),
             TV::Str(s) => vis.visit(name, s.clone(), eq_std),
@@ -605,6 +616,13 @@ impl TV {
             TV::I64(n) => ints(*n, &|m| TV::I64(m as i64), &mut out),
             TV::U32(n) => ints(*n, &|m| TV::U32(m as u32), &mut out),
             TV::U64(n) => ints(*n, &|m| TV::U64(m as u64), &mut out),
+            TV::Timestamp(n) => {
+                for c in [0u64, 1, 1_000, 999_999, 1_000_000, 1_500_000] {
+                    if c < *n {
+                        out.push(TV::Timestamp(c));
+                    }
+                }
+            }
             TV::F64(b) => {
                 for c in [0f64, 1.0, -1.0, 0.5, 1e16] {
                     if c.to_bits() != *b {
